@@ -494,7 +494,7 @@ def finite_language(nfa, limit=5000):
     def rec(p, prefix):
         if len(out) > limit:
             raise AnalysisError('finite language too large to enumerate')
-        if nfa.cs[p].size() > 4:
+        if nfa.cs[p].size() > 12:
             raise AnalysisError('finite language over a wide character class')
         for ch in nfa.cs[p].chars():
             w = prefix + ch
